@@ -5,9 +5,9 @@
    Only statements here; each is closed by `exact` of a lemma from proofs/Cont*Lemmas.v.
    The models are of the REPRESENTATIONS (model/ContPrevector.v, ContVecDeque.v, ...); `*_abs` maps a
    representation to the plain list that the std container would hold. *)
-From Coq Require Import List Arith Bool ZArith.
-From BV Require Import model.ContBuf model.ContBitdeque model.ContVecDeque model.ContPrevector model.ContInst
-  proofs.ContBitdequeLemmas proofs.ContVecDequeLemmas proofs.ContPrevectorLemmas.
+From Coq Require Import List Arith Bool ZArith Lia.
+From BV Require Import model.ContBuf model.ContPool model.ContBitdeque model.ContVecDeque model.ContPrevector model.ContInst
+  proofs.ContPoolLemmas proofs.ContBitdequeLemmas proofs.ContVecDequeLemmas proofs.ContPrevectorLemmas.
 Import ListNotations.
 
 (* ---------------------------------------------------------------------------------------------------
@@ -170,6 +170,95 @@ Qed.
 Print Assumptions C61_bitdeque_iterator_arithmetic.
 
 (* ---------------------------------------------------------------------------------------------------
+   PoolResource<MAXB, ALIGN_BYTES> over abstract integer addresses.  EA = ELEM_ALIGN_BYTES = max(8, ALIGN_BYTES).
+   Premises (they stay in the statements):
+     MAXB mod EA = 0      static_assert in pool.h
+     EA <= MAXB           NOT asserted in pool.h (with MAX_BLOCK_SIZE_BYTES = 0, Allocate(0, a) indexes m_free_lists[1])
+     chunk_base k         what ::operator new returns for the k-th chunk: aligned, chunks do not overlap *)
+Definition pool_env (MAXB ALIGN_BYTES : Z) (chunk_base : nat -> Z) (CS : Z) : Prop :=
+  (MAXB mod ContPool.EA ALIGN_BYTES = 0)%Z /\ (ContPool.EA ALIGN_BYTES <= MAXB)%Z /\
+  (forall k, (chunk_base k mod ContPool.EA ALIGN_BYTES = 0)%Z) /\
+  (forall i j, i <> j -> (chunk_base i + CS <= chunk_base j \/ chunk_base j + CS <= chunk_base i)%Z).
+
+(* ALL scripts of Allocate / Deallocate calls (each Deallocate returns a live allocation with the bytes and
+   alignment it was requested with): every call is defined (all free-list indices in bounds) and the
+   representation invariant holds afterwards *)
+Theorem C61_pool_scripts :
+  forall MAXB ALIGN_BYTES chunk_base CS, pool_env MAXB ALIGN_BYTES chunk_base CS ->
+  forall (ops : list pop) (st : pool * list live_entry),
+    pool_inv MAXB ALIGN_BYTES chunk_base CS st -> script_ok (length (snd st)) ops ->
+    exists st', pool_run MAXB ALIGN_BYTES chunk_base st ops = Some st' /\ pool_inv MAXB ALIGN_BYTES chunk_base CS st'.
+Proof.
+  intros MAXB A cb CS (H1&H2&H3&H4) ops. exact (pool_run_ok MAXB A cb CS H1 H2 H3 H4 ops).
+Qed.
+Print Assumptions C61_pool_scripts.
+
+Theorem C61_pool_trace :
+  forall MAXB ALIGN_BYTES chunk_base CS, pool_env MAXB ALIGN_BYTES chunk_base CS ->
+  forall (ops : list pop) (st : pool * list live_entry),
+    pool_inv MAXB ALIGN_BYTES chunk_base CS st -> script_ok (length (snd st)) ops ->
+    Forall (fun o => exists st', o = Some st' /\ pool_inv MAXB ALIGN_BYTES chunk_base CS st')
+           (pool_trace MAXB ALIGN_BYTES chunk_base st ops).
+Proof.
+  intros MAXB A cb CS (H1&H2&H3&H4) ops. exact (pool_trace_ok MAXB A cb CS H1 H2 H3 H4 ops).
+Qed.
+Print Assumptions C61_pool_trace.
+
+(* the constructor establishes the invariant; CS is the chunk size rounded up to a multiple of EA *)
+Theorem C61_pool_constructor :
+  forall MAXB ALIGN_BYTES chunk_base CS, pool_env MAXB ALIGN_BYTES chunk_base CS ->
+  forall chunk_size_bytes s,
+    CS = (ContPool.num_elem_align_bytes ALIGN_BYTES chunk_size_bytes * ContPool.EA ALIGN_BYTES)%Z ->
+    pool_new MAXB ALIGN_BYTES chunk_base chunk_size_bytes = Some s ->
+    pool_inv MAXB ALIGN_BYTES chunk_base CS (s, []).
+Proof.
+  intros MAXB A cb CS (H1&H2&H3&H4) cb0 s HCS Hn. eapply pool_new_ok; eassumption.
+Qed.
+Print Assumptions C61_pool_constructor.
+
+(* what the invariant says: live allocations never overlap and are distinct, every one is aligned, non-empty,
+   inside one chunk, outside the unused tail and disjoint from every free-listed block; and the accounting is
+   exact: live blocks + free-listed blocks + unused tail = NumAllocatedChunks * chunk size *)
+Theorem C61_pool_no_overlap_alignment_accounting :
+  forall MAXB ALIGN_BYTES chunk_base CS (s : pool) (live : list live_entry),
+    pool_inv MAXB ALIGN_BYTES chunk_base CS (s, live) ->
+    NoDup (live_blocks MAXB ALIGN_BYTES live) /\
+    (forall x y, In x (live_blocks MAXB ALIGN_BYTES live) -> In y (live_blocks MAXB ALIGN_BYTES live) -> x <> y -> idisj x y) /\
+    (forall b, In b (live_blocks MAXB ALIGN_BYTES live) ->
+       (0 < snd b)%Z /\ (fst b mod ContPool.EA ALIGN_BYTES = 0)%Z /\
+       (exists c, c < length (p_chunks s) /\ (chunk_base c <= fst b)%Z /\ (fst b + snd b <= chunk_base c + CS)%Z) /\
+       (fst b + snd b <= p_it s \/ p_end s <= fst b)%Z /\
+       (forall f, In f (free_blocks ALIGN_BYTES s) -> idisj b f)) /\
+    (zsum (map snd (live_blocks MAXB ALIGN_BYTES live)) + zsum (map snd (free_blocks ALIGN_BYTES s)) + (p_end s - p_it s)
+       = Z.of_nat (length (p_chunks s)) * CS)%Z.
+Proof. intros MAXB A cb CS. exact (pool_inv_meaning MAXB A cb CS). Qed.
+Print Assumptions C61_pool_no_overlap_alignment_accounting.
+
+(* the block reserved for a pooled request is large enough, and freed blocks are reused only for the same
+   size class: a block leaves a free list only through the list of exactly the requested class, in which it is
+   recorded with exactly the rounded size; Deallocate files it under the class of the size it is returned with *)
+Theorem C61_pool_reuse_same_class :
+  forall MAXB ALIGN_BYTES chunk_base, (MAXB mod ContPool.EA ALIGN_BYTES = 0)%Z -> (ContPool.EA ALIGN_BYTES <= MAXB)%Z ->
+  forall (s : pool) (bytes alignment : Z), (0 <= bytes)%Z -> is_free_list_usable MAXB ALIGN_BYTES bytes alignment = true ->
+    (bytes <= ContPool.num_elem_align_bytes ALIGN_BYTES bytes * ContPool.EA ALIGN_BYTES)%Z /\
+    (forall a next, nth_error (p_free s) (Z.to_nat (ContPool.num_elem_align_bytes ALIGN_BYTES bytes)) = Some (a :: next) ->
+       allocate MAXB ALIGN_BYTES chunk_base s bytes alignment =
+         Some (Pooled a, mkpool (p_cs s) (p_chunks s)
+                                (fl_set (p_free s) (Z.to_nat (ContPool.num_elem_align_bytes ALIGN_BYTES bytes)) next) (p_it s) (p_end s)) /\
+       In (a, (ContPool.num_elem_align_bytes ALIGN_BYTES bytes * ContPool.EA ALIGN_BYTES)%Z) (free_blocks ALIGN_BYTES s)) /\
+    (forall a s', deallocate MAXB ALIGN_BYTES s (Pooled a) bytes alignment = Some s' ->
+       Permutation.Permutation (free_blocks ALIGN_BYTES s')
+         ((a, (ContPool.num_elem_align_bytes ALIGN_BYTES bytes * ContPool.EA ALIGN_BYTES)%Z) :: free_blocks ALIGN_BYTES s)).
+Proof.
+  intros MAXB A cb H1 H2 s bytes al Hb Hu.
+  destruct (request_fits MAXB A H1 H2 bytes al Hb Hu) as (F1&_&_).
+  split; [exact F1|]. split.
+  - intros a next Hn. eapply alloc_reuse_same_class; eassumption.
+  - intros a s' Hd. eapply dealloc_same_class; eassumption.
+Qed.
+Print Assumptions C61_pool_reuse_same_class.
+
+(* ---------------------------------------------------------------------------------------------------
    non-vacuity: concrete scripts that cross the inline/heap boundary and wrap around the ring *)
 Example C61_nonvacuous_prevector :
   let ops := [PushBack Z 1%Z; PushBack Z 2%Z; PushBack Z 3%Z; Insert Z 1 9%Z; Erase Z 0; ShrinkToFit Z; Swap Z] in
@@ -193,3 +282,25 @@ Example C61_nonvacuous_bitdeque :
   option_map (fun st => (d_nb (fst st), d_pb (fst st), d_pe (fst st), ContBitdequeLemmas.pair_abs 4 st))
              (bd_run 4 (bd_empty, bd_empty) ops) = Some (2, 1, 3, ([false; false; false; false], [])).
 Proof. vm_compute. split; reflexivity. Qed.
+
+(* PoolResource<16, 8>(32) with chunks at k * 32: the environment premises hold, a script that exhausts a chunk
+   (leftover 8 bytes go to free list 1) and reuses a freed block runs, and the accounting equation is 2 * 32 *)
+Example C61_nonvacuous_pool :
+  pool_env 16 8 (pool_base 32) 32 /\
+  (let ops := [PAlloc 9 8; PAlloc 8 8; PAlloc 16 8; PFree 0; PAlloc 12 4; PAlloc 64 8] in
+   script_ok 0 ops /\
+   match pool_new 16 8 (pool_base 32) 32 with
+   | Some s0 => option_map (fun st => (p_chunks (fst st), p_free (fst st), p_it (fst st), map fst (map fst (snd st))))
+                           (pool_run 16 8 (pool_base 32) (s0, []) ops)
+                = Some ([0; 32]%Z, [[]; [24%Z]; []], 48%Z, [Pooled 16; Pooled 32; Pooled 0; External])
+   | None => False
+   end).
+Proof.
+  split.
+  - unfold pool_env, pool_base. split; [reflexivity|]. split; [vm_compute; discriminate|]. split.
+    + intros k. change (ContPool.EA 8) with 8%Z. rewrite Z.mul_comm. replace (32 * Z.of_nat k)%Z with (Z.of_nat k * 4 * 8)%Z by ring. apply Z.mod_mul. discriminate.
+    + intros i j Hij. assert (Z.of_nat i < Z.of_nat j \/ Z.of_nat j < Z.of_nat i)%Z as [H|H] by (apply not_eq in Hij; destruct Hij; [left|right]; apply Nat2Z.inj_lt; assumption).
+      * left. nia.
+      * right. nia.
+  - vm_compute. repeat split; discriminate || reflexivity || auto.
+Qed.
